@@ -476,6 +476,11 @@ def wl_order(ctx, idx, rng):
         ctx.call(o, getattr(operator, opn), p, other, where=f"{opn}")
         if not isinstance(other, Phase):
             ctx.call(o, getattr(operator, opn), other, p, where=f"reflected {opn}")
+        # the comparison ufuncs called directly, in both operand orders (no operator reflection by Python)
+        uf = {"lt": np.less, "le": np.less_equal, "gt": np.greater, "ge": np.greater_equal, "eq": np.equal, "ne": np.not_equal}[opn]
+        oth2 = other if isinstance(other, (Phase, u.Quantity)) else other * u.cycle
+        ctx.call(o, uf, oth2, p, where=f"np.{uf.__name__}(other, phase)")
+        ctx.call(o, uf, p, oth2, where=f"np.{uf.__name__}(phase, other)")
     elif method in ("sort", "argsort"):
         kw = {} if axis == -1 and rng.random() < 0.5 else {"axis": axis}
         ctx.call(o, getattr(p, method), where=method, **kw)
